@@ -131,6 +131,10 @@ def main(tier):
                 ok = any(unify(p, t) is not None for p in pats)
                 run.ob(ok, "meaning|eval_number|fn|%s|%s" % (s, tag), "C10 eval_number: the function has the f64 meaning on the operands' double values", "%s (%r, %s operands)" % (where(m, "::ast::eval"), s, "Float" if tag == "F" else "Integer"),
                        "computes %s ; expected %s" % (T.show(t)[:200], T.show(pats[0])[:160]))
+    if "eval_number" in models:
+        from .c18 import from_f64_ok
+        okf, why, _ = from_f64_ok(F, models["eval_number"])
+        run.ob(okf, "number-from", "C10 premise: eval_number returns library results through Number::from(f64), which must keep the numeric value (exact integrality test, range [-2^63, 2^63))", "eval_number::number::Number::from(f64)", why)
     # factorial: integer branch is the product 2..=n (f64), non-integers go through gamma(x+1)
     if "eval_f64" in models:
         m = models["eval_f64"]
